@@ -25,7 +25,8 @@ Definition gval_eqb (a b : gval) : bool := Nat.eqb (gv_kind a) (gv_kind b) && St
 (* an applied directive: @name(arg: value, ...) *)
 Record dirapp := { da_name : string; da_args : list (string * option gval) }.
 
-Record argdef := { ad_name : string; ad_desc : string; ad_type : option ty; ad_default : option gval }.
+Record argdef := { ad_name : string; ad_desc : string; ad_type : option ty; ad_default : option gval;
+                   ad_dirs : list dirapp }.
 
 Record fielddef := {
   fd_name : string; fd_desc : string; fd_type : option ty; fd_args : list argdef;
